@@ -140,7 +140,10 @@ class SessionRules(Rule):
             # held-back messages are released as the window allows
             if s.fifo and (c.profile & PUBB) and c.closing is None and not d.aborted:
                 head = [r for r in s.fifo if not (r.fires and r.fires[0][0] == d.seq and not r.fires[0][1])]
-                inflight = sum(1 for r in s.reqs if r.kind == "publish" and r.qos and r.pending and r.tx and r.ack1 is None)
+                # window occupancy when the CONNACK was handled: an acknowledgement that follows it in
+                # the same chunk frees its slot only afterwards (and a PUBREC need not trigger a refill)
+                inflight = sum(1 for r in s.reqs if r.kind == "publish" and r.qos and r.tx
+                               and ((r.pending and r.ack1 is None) or r.ack1 == d.seq))
                 if head and (not head[0].qos or inflight < c.window):
                     L.probe("held_back_at_resume")
                     L.violate("C12", "M3", "held-back-not-released:%s" % ("qos0" if not head[0].qos else "window-has-room"),
